@@ -8,7 +8,7 @@ ENG_NOTE = 'Trusted: Coq kernel; T1 translator (harness/cmd/xlate, go/ast) repor
 ENG_TECH = 'Coq proof over an IR regenerated from engine/gengine.go by a go/ast translator (per-run obligation gen = hand, then hand_sound: run_prog = spec for every configuration; traces quantify over all interleavings) + trace/err/result correspondence under a gate adversary evaluated inside Coq'
 POOL_NOTE = 'Trusted: Coq kernel; T3 translator (harness/cmd/xlate pool.go, go/ast) reporting the statement shapes of engine/gengine_pool.go; sync.Mutex / the go statement per the Go memory model; the pool harness (reflection snapshots, gates, globally sequenced events) and python scenario generator; liveness needs a fair scheduler (assumption). No axioms.'
 POOL_TECH = 'Coq proof (transition-system invariants by induction over all action sequences / histories) + go/ast translator obligations (wrapper and update shapes) + scenario correspondence with gate-held requests evaluated inside Coq'
-LANG_NOTE = "Trusted: Coq kernel; the hand-written interpreter model (Lang/Store.v, Sem.v) whose fidelity is established by the correspondence run and, for its structural premises (recover points, fresh locals, statement / return protocol, conc fan-out and join, for cap), by the T4 translator harness/cmd/xlate interp.go (outcome class, value, cited positions, calls with dynamic argument types, whole host store, and the listener-built tree compared node by node with the grammar's reading of the generated text); the assumed table of reflect primitives; IEEE-754 binary64 semantics of Go's float64 (the model runs on Coq primitive floats; theorems quantify over any float_ops); python float() = strconv.ParseFloat on the literals used. No axioms in the theorems (the primfo instance shows Coq's primitive-float constants in Print Assumptions of cases files only)."
+LANG_NOTE = "Trusted: Coq kernel; the hand-written interpreter model (Lang/Store.v, Sem.v) whose fidelity is established by the correspondence run and, for its structural premises (recover points, fresh locals, statement / return protocol, conc fan-out and join, for cap), by the T4 translator harness/cmd/xlate interp.go (outcome class, value, cited positions, calls with dynamic argument types, whole host store, and the listener-built tree compared node by node with the grammar's reading of the generated text); the assumed table of reflect primitives; IEEE-754 binary64 semantics of Go's float64 (the model runs on Coq primitive floats; theorems quantify over any float_ops); python float() = strconv.ParseFloat on the literals used (also the oracle table of real literals handed to the reader model Lang/Reader.v, whose lexer and grammar are a hand-written copy of gengine.g4 tied to the generated ANTLR code by behaviour only). No axioms in the theorems (the primfo instance shows Coq's primitive-float constants in Print Assumptions of cases files only)."
 LANG_TECH = 'Coq proof over a hand-written executable model of the interpreter (operators, expression nodes, statements, data context) + go/ast translator obligations on the interpreter structure the model encodes (T4) + model/implementation correspondence on generated rule texts evaluated by vm_compute inside Coq, including listener-tree / position comparison'
 CLAIMS = {
  "C03": {
@@ -24,7 +24,7 @@ CLAIMS = {
   "note": LANG_NOTE,
   "technique": LANG_TECH},
  "C01": {
-  "text": "Theorems (Props/C01.v, 56, closed, for every float_ops): integer + - * wrap at 64 bits (mixed signed/unsigned included), / truncates, division by zero of any class fails, a float operand promotes to float64, + concatenates strings, ill-typed arithmetic never yields a value; integer comparisons are exact over all of Z (signed against unsigned included), float comparisons use the float order, strings lexicographic, booleans only == / !=; && || ! only on booleans; every expression node yields a value only if all its operands did (both operands always evaluated, left first) and errors propagate; @name/@id/@desc/@sal. Precedence, left associativity and parentheses: Lang/Parse.v is an operator-precedence reader (tokens -> shape of the listener's tree, with the grammar's two sorts) proved sound and complete against the canonical-form specification (parse ts = Some t <-> print t = ts /\\ canon t /\\ sorted t; the reading is unique; a tighter operator binds first, equal or looser associates left, parentheses override — for operands of any shape), and tied to the generated ANTLR parser on every run: ~1400 token strings (all operator pairs bare / parenthesised / negated, triples, nested random strings, sort errors, token mutations, noise; three contexts) compiled by the implementation, tree shape dumped by reflection, parse must return exactly that shape or None exactly when compile fails. Plus: all operator pairs and 150 (thorough: all) triples evaluated end to end, 14x14 operand kinds x operators at boundary values, random trees.",
+  "text": "Theorems (Props/C01.v, 58, closed, for every float_ops): integer + - * wrap at 64 bits (mixed signed/unsigned included), / truncates, division by zero of any class fails, a float operand promotes to float64, + concatenates strings, ill-typed arithmetic never yields a value; integer comparisons are exact over all of Z (signed against unsigned included), float comparisons use the float order, strings lexicographic, booleans only == / !=; && || ! only on booleans; every expression node yields a value only if all its operands did (both operands always evaluated, left first) and errors propagate; @name/@id/@desc/@sal. Precedence, left associativity and parentheses: Lang/Parse.v is an operator-precedence reader (tokens -> shape of the listener's tree, with the grammar's two sorts) proved sound and complete against the canonical-form specification (parse ts = Some t <-> print t = ts /\\ canon t /\\ sorted t; the reading is unique; a tighter operator binds first, equal or looser associates left, parentheses override — for operands of any shape), and tied to the generated ANTLR parser on every run: ~1400 token strings (all operator pairs bare / parenthesised / negated, triples, nested random strings, sort errors, token mutations, noise; three contexts) compiled by the implementation, tree shape dumped by reflection, parse must return exactly that shape or None exactly when compile fails. The reader model Lang/Reader.v (lexer + grammar + listener checks, a function of the TEXT) reads every expression through that same parse (C01_text_expressions_are_read_by_the_grammar) and its tree for every generated text must be the listener's. Plus: all operator pairs and 150 (thorough: all) triples evaluated end to end, 14x14 operand kinds x operators at boundary values, random trees.",
   "note": LANG_NOTE,
   "technique": LANG_TECH},
  "C02": {
@@ -32,7 +32,7 @@ CLAIMS = {
   "note": LANG_NOTE,
   "technique": LANG_TECH},
  "C10": {
-  "text": 'Partial. Proved (Props/C10.v, 5, closed, for any front end): an entry point that inspects all diagnostics before installing is all-or-nothing, installs exactly the C08 replacement/merge on success, and any two such entry points accept exactly the same texts; duplicate names are rejected. Per-run obligation: the five entry points regenerated from the source (xlate compile) are all of that shape (obligations/GenCompileOk.v). Observed, not proved: totality (no panic / crash over valid, token-mutated, lexer-noise, arbitrary-byte streams and every kind of truncation (token-boundary prefixes / suffixes of a valid text, keyword-only texts), about 420 texts x 5 entry points quick), pairwise agreement, exact state equality on reject.',
+  "text": 'Partial. Proved (Props/C10.v, 8, closed; the first five for any front end): an entry point that inspects all diagnostics before installing is all-or-nothing, installs exactly the C08 replacement/merge on success, and any two such entry points accept exactly the same texts; duplicate names are rejected; the reader model Lang/Reader.v (the token rules of the grammar, a recursive-descent reader making the alternative choices of the ANTLR parser, the checks of the listener; evaluated inside Coq on the text) accepts no text that defines a name twice or no rule, and only int64 saliences. Per-run obligation: the five entry points regenerated from the source (xlate compile) are all of that shape (obligations/GenCompileOk.v). Observed, not proved: totality (no panic / crash over valid, token-mutated, character-mutated, lexer-noise, arbitrary-byte streams and every kind of truncation (token-boundary prefixes / suffixes of a valid text, keyword-only texts), about 420 texts x 5 entry points quick), pairwise agreement, exact state equality on reject; for every distinct text the verdict of the full build and the installed names / saliences / descriptions equal those of the reader model (about 400 texts quick, 9,500 thorough; a disagreement with the model alone is reported without failing input, since C10 promises agreement between entry points, not a particular language).',
   "note": LANG_NOTE,
   "technique": LANG_TECH},
  "C15": {
@@ -44,7 +44,7 @@ CLAIMS = {
   "note": LANG_NOTE,
   "technique": LANG_TECH},
  "C20": {
-  "text": "Theorems (Props/C20.v, 13, closed): every position cited by a failed block / rule is the position of a construct of that rule's body (mutual induction over all evaluator functions); arithmetic faults, comparison / logic type faults, failing or panicking calls and failing assignments cite their own construct first. That a node's position is the 1-based line / 0-based column of its first token is tied by correspondence: every node position of every generated text (random layouts: blank lines, comments, tabs, several rules) is compared with the listener's tree, and every (line, column) in the error text with the model's citation list (193 single-fault programs quick).",
+  "text": "Theorems (Props/C20.v, 16, closed): every position cited by a failed block / rule is the position of a construct of that rule's body (mutual induction over all evaluator functions); arithmetic faults, comparison / logic type faults, failing or panicking calls and failing assignments cite their own construct first. From the text: Lang/Lexer.v computes every token's position from the text, proved equal to line = 1 + line breaks before the token / column = characters since the last one; every position in a tree that Lang/Reader.v reads from a text is a token position; composed (C20_cited_positions_are_lines_of_the_text): a position cited by the failure of a rule read from text s is 1 + the number of line breaks before a token of s, for every text and layout. That the implementation stores the same positions is tied by correspondence: the reader's tree must equal the printer's, and every node position of every generated text (random layouts: blank lines, comments, tabs, several rules) is compared with the listener's tree, and every (line, column) in the error text with the model's citation list (193 single-fault programs quick).",
   "note": LANG_NOTE,
   "technique": LANG_TECH},
  "C06": {
